@@ -904,11 +904,33 @@ class Extractor:
         raise _ReturnSignal()
 
     def st_Try(self, s):
-        self.frames.append(("try",))
-        try:
-            self.walk_body(s.body)
-        finally:
-            self.frames.pop()
+        # with handlers: two kinds of static configuration - the body completes (then `else`), or an exception is caught
+        # by one of the handlers (then only that handler's body is walked, under an ('except', type) frame; the partial
+        # effects of the interrupted body are not modelled)
+        normal = True
+        if s.handlers:
+            normal = self.chooser.decide(("call", ("n", "__completes__"), (C(s.lineno),), ()))
+        if normal:
+            self.frames.append(("try",))
+            try:
+                self.walk_body(s.body)
+            finally:
+                self.frames.pop()
+            if s.orelse:
+                self.walk_body(s.orelse)
+        else:
+            for k, h in enumerate(s.handlers):
+                last = k == len(s.handlers) - 1
+                if last or self.chooser.decide(("call", ("n", "__caught_by__"), (C(s.lineno), C(k)), ())):
+                    typ = self.ev(h.type) if h.type is not None else C(None)
+                    if h.name:
+                        self.bind(h.name, ("n", h.name))
+                    self.frames.append(("except", typ))
+                    try:
+                        self.walk_body(h.body)
+                    finally:
+                        self.frames.pop()
+                    break
         if s.finalbody:
             self.frames.append(("finally",))
             try:
